@@ -276,7 +276,7 @@ def run(chk: Check, eng: Engine) -> None:
     chk.rule("R15-d", "the reader's grammar has the precedence shape the argument relies on", floor=4)
     chk.not_decided += ["regex quoting branches of Terminal.format_as_spec", "party annotations", "that a derivable constraint text is read back with the same grouping (R15-f decides derivability only)"]
     chk.rule("R15-f", "what the printers of searches and constraints emit - for every class the reader can put into each field - is derivable from the rule the reader "
-             "uses for that construct (`expression` for a search, `constraint` for each line FandangoSpec.__repr__ writes)", floor=40)
+             "uses for that construct (`expression` for a search, `constraint` for each line FandangoSpec.__repr__ writes)", floor=15)
     from .c15_syntax import printer_reader_rule
     printer_reader_rule(chk, eng, "R15-f")
     chk.rule("R15-g", "a printer of expression text puts the <symbol> references back through the placeholder map stored next to the text", floor=3)
